@@ -89,6 +89,12 @@ def cases(rng, tier):
                     'L': rng.choice([2, 2, 3, 4]), 'seed': rng.getrandbits(30), 'sweeps': rng.choice([3, 4]),
                     'numiter': rng.choice([4, 5, 6]), 'repeat': 2, 'Dmax': rng.choice([1, 1, 2]), 'complete': False, 'scale': 1.0,
                     'sdtype': rng.choice(['real', 'complex']), 'prep': rng.choice(['none', 'left']), 'between': rng.choice(['none', 'right'])})
+    # two sites, two-site DMRG, PRODUCT start state (bond dimension one: a single non-zero entry per tensor in a charge sector): the merged
+    # tensor is the whole state, so one local solve with enough Lanczos iterations must reach the exact (sector) ground energy
+    for k in range({'quick': 10, 'thorough': 60, 'search': 20}[tier]):
+        out.append({'kind': 'two', 'model': rng.choice(['xxz', 'xxz', 'ising', 'bose', 'randherm']), 'L': 2, 'seed': rng.getrandbits(30),
+                    'sweeps': rng.choice([1, 2]), 'numiter': 6, 'repeat': 1, 'Dmax': 1, 'complete': False, 'full2': True, 'scale': 1.0,
+                    'sdtype': rng.choice(['real', 'complex']), 'prep': 'none', 'between': 'none'})
     SR.mark_replay(out, {'quick': 24, 'thorough': 120, 'search': 0}[tier], 'sweeps')
     return out
 
@@ -139,6 +145,8 @@ def impl(case):
     numiter = case['numiter']
     if case['complete']:
         numiter = min(int(max(a.size for a in psi.A) * (len(H.qd) if case['kind'] == 'two' else 1)) + 2, 120)
+    if case.get('full2'):
+        numiter = len(H.qd) ** 2 + 2       # two sites, two-site DMRG: the single local problem IS the whole (sector) problem
     reported, finals, norms = [], [], []
     numeric = SR.numeric_ok(case, H, psi)
     runs = []
@@ -194,8 +202,8 @@ def prop(case, r):
         if b > a + tol:
             msgs.append('reported energies increase: %.12g -> %.12g' % (a, b))
             break
-    if r['complete'] and r['e_gs'] is not None and abs(rep[-1] - r['e_gs']) > 1e-7 * (r['hscale'] if case.get('hmag') else 1 + r['hscale']):
-        msgs.append('complete manifold: final energy %.12g does not reach the exact ground-state energy %.12g' % (rep[-1], r['e_gs']))
+    if (r['complete'] or case.get('full2')) and r['e_gs'] is not None and abs(rep[-1] - r['e_gs']) > 1e-7 * (r['hscale'] if case.get('hmag') else 1 + r['hscale']):
+        msgs.append('%s: final energy %.12g does not reach the exact ground-state energy %.12g' % ('complete manifold' if r['complete'] else 'two sites, two-site DMRG', rep[-1], r['e_gs']))
     if not r['H_unchanged']:
         msgs.append('the Hamiltonian MPO was modified')
     if r['sparsity']:
